@@ -1,5 +1,6 @@
 import PhpVerif.Model.ScanDFA
 import PhpVerif.Gen.ScanDFA
+import PhpVerif.Spec.Keywords
 /-
 Facts about all states of the generated scanner at once (C03 letter case, C04 line terminators).
 Tie: T-gen — Gen/ScanDFA.lean is rewritten by gofacts from internal/scanner/scanner.go on every run
@@ -30,7 +31,31 @@ theorem letter_case_spec (r : DFARow) (hr : r ∈ Gen.dfaRows) (k : Nat) (hk : k
 theorem line_terminators_never_skipped :
     Gen.dfaRows.all (rowNewlineOK Gen.newlineActions Gen.holdActions) = true := by decide +kernel
 
+/-- the PHP-mode entry state of the scanner (`lexer_en_php`) -/
+def phpStart : Nat := 123
+
+/-- every lexeme of the table, followed by `delim`, makes the scanner return the token the table names -/
+def recognises (tbl : List (List Nat × Nat)) (delim : Nat) : Bool :=
+  tbl.all (fun e =>
+    match Gen.tokenIds.find? (fun p => p.1 == e.2) with
+    | some (_, id) => scanWord Gen.dfaRowsV0 Gen.dfaRowsV1 Gen.trInfos phpStart e.1 delim == some id
+    | none => false)
+
+/-- OBLIGATION (C03): each of PHP's 76 reserved words and magic constants, written in lower case and followed by
+    `(`, is returned as its own token by the regenerated transition table and action blocks —
+    whether all of the scanner's `when` conditions are false or all are true.  With `letter_case_never_matters`: in every
+    spelling. -/
+theorem keywords_recognised : recognises Spec.keywords 40 = true := by decide +kernel
+
+/-- OBLIGATION (C03): the twelve casts (with blanks or tabs inside the parentheses) and the 34 operators of
+    more than one character, followed by `$` -/
+theorem casts_recognised : recognises Spec.casts 36 = true := by decide +kernel
+
+theorem operators_recognised : recognises Spec.operators 36 = true := by decide +kernel
+
 /- non-vacuity -/
+example : recognises [(bytes! "iff", nm! "T_IF")] 40 = false := by decide +kernel
+example : recognises [(bytes! "if", nm! "T_ELSE")] 40 = false := by decide +kernel
 example : 500 < Gen.dfaRows.length ∧ 50 < Gen.newlineActions.length := by decide +kernel
 example : rowCaseBlind { state := 1, conds := [], ivs := [(97, 5), (98, 7), (255, 5)] } = false := by decide +kernel
 example : rowNewlineOK [10008] [] { state := 1, conds := [], ivs := [(9, 3), (10, 4), (255, 3)] } = false := by decide +kernel
